@@ -20,7 +20,7 @@ ANCHORS = ["decaylanguage.decay.decay:DecayChain.to_dict", "decaylanguage.decay.
            "decaylanguage.decay.decay:DaughtersDict.__init__", "decaylanguage.decay.decay:DaughtersDict.to_list"]
 WORKERS = {"quick": 4, "thorough": 16}
 WTESTS = {"groups": ['chain_to_dict', 'mode_to_dict'], "tests": ['tests/decay', 'tests/utils']}
-REQUIRED = {"same-decaying-twice-in-one-fs": 20, "same-decaying-two-depths": 20, "metadata-nested>=2": 20, "multiplicity-4": 20,
+REQUIRED = {"sub-decay-without-daughters": 10, "same-decaying-twice-in-one-fs": 20, "same-decaying-two-depths": 20, "metadata-nested>=2": 20, "multiplicity-4": 20,
             "parser-chain": 20, "queried-before-to_dict": 50, "parser-chain-repeated-daughter": 5, "pdgid-all-ids": 1, "four-constructions": 100, "zero-or-negative-count-in-mapping": 10, "mode-built-from-a-final-state-object-the-caller-edits-afterwards": 20,
             "C11.chain.to_dict.roundtrip": 300, "C11.mode.to_dict.roundtrip": 300}
 EXHAUSTIVE_NOTE = "all PDG IDs of the EvtGen table go through DecayMode.from_pdgids (sharded over workers); tree shapes <= 5 (quick) / 6 (thorough) enumerated"
@@ -197,7 +197,13 @@ def check_final_state(ctx, ids):
         "pdgids": lambda: DecayMode.from_pdgids(0.5, list(ids)).daughters,
         "pdgids-tuple": lambda: DecayMode.from_pdgids(0.5, tuple(reversed(ids))).daughters,
         "mode-fs-kw": lambda: DecayMode(0.5, fs=list(shuffled)).daughters,
+        # names and name=count keywords together (counts add up, as for collections.Counter); only names that are identifiers can be keywords
+        "string+keywords": lambda: DaughtersDict(sep.join(shuffled[: len(shuffled) // 2]), **dict(Counter(x for x in shuffled[len(shuffled) // 2:]))),
     }
+    if not all(x.isidentifier() for x in shuffled[len(shuffled) // 2:]):
+        del builds["string+keywords"]
+    else:
+        ctx.hit("names-and-keywords-together")
     ctx.hit("zero-or-negative-count-in-mapping")
     canon_list = sorted(nm)
     for how, fn in builds.items():
@@ -289,7 +295,9 @@ def run(ctx):
                 check_chain(ctx, {"chain": ch, "order": order, "meta": {k: gen_meta(rng) for k in ch["types"]}}, "enum")
     for _ in range(ctx.pick(300, 3000)):
         n = rng.choice([1, 2, 3, 4, 5, 6, 8, 12])
-        ch = chains.random_chain(rng, n, max_mult=rng.choice([2, 3, 4]))
+        ch = chains.random_chain(rng, n, max_mult=rng.choice([2, 3, 4]), empty=0.12)
+        if any(not v[1] for v in ch["types"].values()):
+            ctx.hit("sub-decay-without-daughters")
         order = list(ch["types"])
         rng.shuffle(order)
         check_chain(ctx, {"chain": ch, "order": order, "meta": {k: gen_meta(rng) for k in ch["types"]}}, "gen")
